@@ -39,6 +39,11 @@ func (e *Evaluator) setLastEvaluatedT(
 	t *base.T,
 ) {
 
+	// end of input: GetType() already treats a missing token as nil
+	if t == nil {
+		t = base.MakeNil()
+	}
+
 	switch t.GetType() {
 	case base.UNKNOWN:
 		switch {
